@@ -99,7 +99,7 @@ func verifC16_check(f *fileBackedFile, pf *verifC16_poolFile, g verifC16_ghost, 
 }
 
 func verifHarness_C16_ReferenceCounting() {
-	rt.MustCover("rc:link", "rc:unlink-last", "rc:unlink", "rc:open", "rc:close-last", "rc:close", "rc:frozen-open", "rc:frozen-close-last", "rc:write", "rc:truncate", "rc:dead-link", "rc:dead-open")
+	rt.MustCover("rc:link", "rc:unlink-last", "rc:unlink", "rc:open", "rc:close-last", "rc:close", "rc:frozen-open", "rc:frozen-close-last", "rc:write", "rc:truncate", "rc:dead-link", "rc:dead-open", "rc:dead-write", "rc:dead-truncate", "rc:dead-allocate", "rc:dead-read", "rc:dead-seek")
 	ctx := context.Background()
 	f, pf, g := verifC16_arbitrary()
 	masks := []ShareMask{ShareMaskRead, ShareMaskWrite, ShareMaskRead | ShareMaskWrite}
@@ -192,10 +192,11 @@ func verifHarness_C16_ReferenceCounting() {
 		f.Unlink()
 		g.links = 0
 		verifC16_check(f, pf, g, true)
-		if rt.NondetBool("link (else open)") {
+		switch rt.Choose(7) {
+		case 0:
 			rt.Cover("rc:dead-link")
 			rt.Assert(f.Link() == StatusErrStale, "linking a dead file fails with ESTALE")
-		} else {
+		case 1:
 			rt.Cover("rc:dead-open")
 			var out Attributes
 			rt.Assert(f.VirtualOpenSelf(ctx, masks[rt.Choose(3)], &OpenExistingOptions{Truncate: rt.NondetBool("truncate")}, 0, &out) == StatusErrStale, "opening a dead file fails with ESTALE")
@@ -203,6 +204,27 @@ func verifHarness_C16_ReferenceCounting() {
 			_, ok := f.openReadFrozen()
 			f.lock.Unlock()
 			rt.Assert(!ok, "a dead file cannot be frozen")
+		case 2: // a write through a stale reference (e.g. an NFS state ID resolved before the unlink)
+			rt.Cover("rc:dead-write")
+			_, st := f.VirtualWrite(ctx, []byte{1, 2}, 0)
+			rt.Assert(st == StatusErrStale, "writing to a dead file fails with ESTALE")
+		case 3: // truncate(path) needs no descriptor
+			rt.Cover("rc:dead-truncate")
+			var in, out Attributes
+			in.SetSizeBytes(uint64(rt.NondetU8("new size")))
+			rt.Assert(f.VirtualSetAttributes(ctx, &in, 0, &out) == StatusErrStale, "truncating a dead file fails with ESTALE")
+		case 4:
+			rt.Cover("rc:dead-allocate")
+			rt.Assert(f.VirtualAllocate(ctx, 0, 16) == StatusErrStale, "allocating space in a dead file fails with ESTALE")
+		case 5:
+			rt.Cover("rc:dead-read")
+			buf := make([]byte, 2)
+			_, _, st := f.VirtualRead(ctx, buf, 0)
+			rt.Assert(st == StatusErrStale, "reading a dead file fails with ESTALE")
+		case 6:
+			rt.Cover("rc:dead-seek")
+			_, st := f.VirtualSeek(ctx, 0, filesystem.Data)
+			rt.Assert(st == StatusErrStale, "seeking in a dead file fails with ESTALE")
 		}
 		verifC16_check(f, pf, g, true)
 		rt.Assert(pf.truncates == 0 && pf.writes == 0, "released storage is never touched")
